@@ -97,8 +97,122 @@ func c03foutCmd(args []string) {
 		fmt.Printf("F %s %d %s %s\n", old, a, cs, hexb(got))
 		os.Remove(p)
 	}
+	twoHandles(r, *dir, *n/6+8)
 	if *repo != "" {
 		openInventory(filepath.Join(*repo, "hermes"))
+	}
+}
+
+// twoHandles: 2-3 writers of DefaultFoutGenerator open on one path at the same time, interleaved.
+//
+//	H <old v:n|-> <events O<h>:<append> W<h>:<v>:<n> ...> | <observed v:n,v:n,...|->
+//
+// A W event is a write that reaches the operating system: a chunk of >= 4096 bytes handed to an
+// empty bufio buffer goes out at once, a small last chunk goes out at Close.
+func twoHandles(r *rng, dir string, n int) {
+	rleOf := func(b []byte) string {
+		if len(b) == 0 {
+			return "-"
+		}
+		var parts []string
+		i := 0
+		for i < len(b) {
+			j := i
+			for j < len(b) && b[j] == b[i] {
+				j++
+			}
+			parts = append(parts, fmt.Sprintf("%d:%d", b[i], j-i))
+			i = j
+		}
+		return strings.Join(parts, ",")
+	}
+	for c := 0; c < n; c++ {
+		p := filepath.Join(dir, fmt.Sprintf("h%d.res", c))
+		os.Remove(p)
+		old := "-"
+		if r.intn(2) == 0 {
+			o := make([]byte, 1+r.intn(9000))
+			v := byte(1 + r.intn(200))
+			for i := range o {
+				o[i] = v
+			}
+			os.WriteFile(p, o, 0600)
+			old = rleOf(o)
+		}
+		nh := 2 + r.intn(2)
+		same := r.intn(2) == 0 // identical writers (the repeated batch line)
+		appendAll := r.intn(6) == 0
+		type hstate struct {
+			w      hermes.OutWriter
+			big    int // big chunks still to write
+			small  int // size of the final small chunk (0 = none)
+			v      byte
+			opened bool
+			done   bool
+		}
+		hs := make([]*hstate, nh)
+		nbig, small := r.intn(3), r.intn(3000)
+		for i := range hs {
+			hs[i] = &hstate{big: nbig, small: small, v: 65}
+			if !same {
+				hs[i].big, hs[i].small, hs[i].v = r.intn(3), r.intn(3000), byte(66+i)
+			}
+		}
+		var evs []string
+		for {
+			var live []int
+			for i, h := range hs {
+				if !h.done {
+					live = append(live, i)
+				}
+			}
+			if len(live) == 0 {
+				break
+			}
+			i := live[r.intn(len(live))]
+			h := hs[i]
+			switch {
+			case !h.opened:
+				w, err := hermes.DefaultFoutGenerator(p, appendAll)
+				if err != nil {
+					fmt.Fprintln(os.Stderr, err)
+					os.Exit(1)
+				}
+				h.w, h.opened = w, true
+				a := 0
+				if appendAll {
+					a = 1
+				}
+				evs = append(evs, fmt.Sprintf("O%d:%d", i, a))
+			case h.big > 0:
+				nb := 4096 + r.intn(1500)
+				if same {
+					nb = 4096 + 100*h.big
+				}
+				b := make([]byte, nb)
+				vv := h.v + byte(h.big) // the k-th chunk of every identical writer carries the same value
+				for k := range b {
+					b[k] = vv
+				}
+				h.w.WriteBytes(b)
+				h.big--
+				evs = append(evs, fmt.Sprintf("W%d:%d:%d", i, vv, nb))
+			default:
+				if h.small > 0 {
+					b := make([]byte, h.small)
+					for k := range b {
+						b[k] = h.v
+					}
+					h.w.WriteBytes(b)
+					evs = append(evs, fmt.Sprintf("W%d:%d:%d", i, h.v, h.small))
+				}
+				h.w.Close()
+				h.done = true
+			}
+		}
+		got, _ := os.ReadFile(p)
+		fmt.Printf("H %s %s | %s\n", old, strings.Join(evs, " "), rleOf(got))
+		os.Remove(p)
 	}
 }
 
